@@ -104,6 +104,8 @@ def item_label(item):
         return f"v{item['v']}"
     if "s" in item:
         return f"s{item['s']}"
+    if "y" in item:
+        return f"y{item['y']}"
     if "i" in item:
         return f"u{item['i']}/{item.get('mode', 'serial')}/{item.get('workers')}" + (f"/prior{item['prior']}" if item.get("prior") else "")
     return json.dumps(item, sort_keys=True)[:80]
